@@ -267,7 +267,12 @@ fn run_case(n: usize, height: u32, seq: &[Op], name: &str, rep: &mut Report) {
     w.query(rep);
     let mut shape = String::new();
     for op in seq {
-        w.apply(op, rep);
+        // the index itself must not panic on any sequence of updates and disconnections inside the property's quantifier
+        let r = std::panic::catch_unwind(std::panic::AssertUnwindSafe(|| w.apply(op, rep)));
+        if r.is_err() {
+            rep.fail("C19", "index_panicked", &format!("TxIndex panicked while applying {op:?} (sequence {seq:?})"));
+            break;
+        }
         shape.push(match op {
             Op::Upd(k) if k.is_empty() => 'u',
             Op::Upd(_) => 'U',
